@@ -70,6 +70,7 @@ def run(ctx):
         ctx.guard(c08.keep_only, ctx, lambda: c18.who(ctx, cfg, fs), lambda o: o.key.startswith(('params::', '<params::')) and 'std::env::' in o.key, 'E.env-absence')
         ctx.guard(k5, ctx, cfg, fs)
         ctx.guard(loop_conditions, ctx, cfg, fs)
+        ctx.guard(count_counts, ctx, cfg, fs)
         ctx.guard(len_threaded, ctx, cfg, fs)
         ctx.guard(k6, ctx, cfg, fs)
 
@@ -462,6 +463,34 @@ def loop_conditions(ctx, cfg, fs, rule='K5.loops'):
                 judge(sw.roots)
             ctx.ob(rule, '%s:goes-on-by-outcome-only' % short(b.path), not bad,
                    '%s: the tests inside the repetition look only at the result of parse_option and at State::len(): %s' % (short(b.path), sorted(set(bad)) or 'ok'), where=c.where(), cfg=cfg)
+
+def count_counts(ctx, cfg, fs, rule='K5.loops'):
+    """count() reports how many times the inner parser SUCCEEDED: also a success that consumed nothing (a flag that is only
+    present through its environment variable, a fallback) is one occurrence.  The `+ 1` therefore sits on every way from the
+    success of parse_option to the next round or to the end of the loop - in particular before the no-progress exit."""
+    b = ctx.look(fs.one(r'^<structs::ParseCount<P, T> as Parser<usize>>::eval$'))
+    po = [c for c in b.calls() if c.is_(r'^structs::parse_option$')]
+    if len(po) != 1:
+        raise Broken('ParseCount::eval: expected one parse_option call, found %d' % len(po))
+    succ = []
+    for sw in switches(b):
+        if sw.kind == 'bool' and any(r.kind == 'call' and r.call.is_(r'Option::<.*>::is_(some|none)$') for r in sw.roots):
+            r0 = [r for r in sw.roots if r.kind == 'call'][0]
+            succ.append(sw.target(r0.call.is_(r'is_some$')))
+        elif sw.kind == 'enum' and sw.enum == 'std::option::Option' and sw.target('Some') is not None:
+            rs = provenance(b, sw.place, sw.discr_site[0], sw.discr_site[1], through=None)
+            if any(r.kind == 'call' and (r.call.bb == po[0].bb or r.call.is_(r'Try>::branch$')) for r in rs):
+                succ.append(sw.target('Some'))
+    incs = [i for i, k, st in b.stmts() if st['k'] == 'assign' and st['rv']['k'] == 'bin' and st['rv']['op'].startswith('Add') and (op_const(st['rv']['b']) or {}).get('v') == 1
+            and b.local_ty((op_place(st['rv']['a']) or [0])[0]) == 'usize']
+    ok = bool(succ) and bool(incs)
+    missed = []
+    for s_ in succ:
+        reach = reachable_edges(b, s_, avoid=incs)
+        if po[0].bb in reach or any(r_ in reach for r_ in b.return_blocks()):
+            missed.append(b.where(s_))
+    ctx.ob(rule, 'ParseCount::eval:counts-every-success', ok and not missed,
+           'ParseCount::eval adds one on every way from a success of parse_option to the next round or the exit (%d success edge(s), %d increment(s)): %s' % (len(succ), len(incs), missed or 'ok'), where=b.where(), cfg=cfg)
 
 def in_cycle(b, x):
     return any(x in reachable_edges(b, s_) for s_ in b.succ(x))
